@@ -55,14 +55,42 @@ theorem binaryDilation_spec (land : Mat) (hl : Land01 land) (it : Int) (i j : In
   · rw [aux]; exact bdilateIter_spec land hl _ i j hb
   · rw [aux]; exact bdilateIter_spec land hl _ i j hb
 
+theorem notOcean_spec (land : Mat) (hl : Land01 land) (d : Int) (i j : Int) (hb : land.inBox i j = true) :
+    ((notOcean land d).get 0 i j = 0 ∨ (notOcean land d).get 0 i j = 1) ∧
+    (land.val i j = 1 → (notOcean land d).get 0 i j = 1) := by
+  unfold notOcean
+  split_ifs
+  · exact binaryDilation_spec land hl (d - 1) i j hb
+  · have hg : land.get 0 i j = land.val i j := by
+      unfold Mat.get; unfold Mat.inBox at hb; simp only [decide_eq_true_eq] at hb; rw [if_pos hb]
+    rw [hg]
+    exact ⟨hl i j hb, fun h => h⟩
+
 theorem fjordInput_val (land : Mat) (d : Int) (i j : Int) :
-    (fjordInput land d).val i j = -(binaryDilation land (d - 1)).get 0 i j - land.get 0 i j := rfl
+    (fjordInput land d).val i j = -(notOcean land d).get 0 i j - land.get 0 i j := rfl
+
+/-- with an ocean distance of at most one cell every sea cell is open ocean (index 0 before any dilation);
+the code before the `fix:` commit made none of them ocean (`old_ocean_distance_one_fails`) -/
+theorem ocean_distance_le_one_all_sea_is_ocean (land : Mat) (hl : Land01 land) (d : Int) (hd : d ≤ 1) (i j : Int)
+    (hb : land.inBox i j = true) (h0 : land.val i j = 0) : (fjordInput land d).val i j = 0 := by
+  rw [fjordInput_val]
+  unfold notOcean
+  rw [if_neg (by omega)]
+  have hg : land.get 0 i j = land.val i j := by
+    unfold Mat.get; unfold Mat.inBox at hb; simp only [decide_eq_true_eq] at hb; rw [if_pos hb]
+  rw [hg, h0]; rfl
+
+/-- counter-witness for the old code: a 1 × 3 mask `land sea sea` with ocean distance 1 — the far sea cell
+(two cells from land) is not ocean (-1 instead of 0) -/
+theorem old_ocean_distance_one_fails :
+    (fjordInputOld ⟨1, 3, fun _ j => if j = 0 then 1 else 0⟩ 1).val 0 2 = -1 ∧
+    (fjordInput ⟨1, 3, fun _ j => if j = 0 then 1 else 0⟩ 1).val 0 2 = 0 := by decide
 
 /-- the initial matrix of `fjord_index` is well formed: 0 on the open ocean, -2 on land, -1 elsewhere -/
 theorem fjordInput_init (land : Mat) (hl : Land01 land) (d : Int) : Init (fjordInput land d) := by
   intro i j hb
   have hb' : land.inBox i j = true := hb
-  obtain ⟨h01, hland⟩ := binaryDilation_spec land hl (d - 1) i j hb'
+  obtain ⟨h01, hland⟩ := notOcean_spec land hl d i j hb'
   simp only [fjordInput_val]
   have hg : land.get 0 i j = land.val i j := by
     unfold Mat.get; unfold Mat.inBox at hb'; simp only [decide_eq_true_eq] at hb'; rw [if_pos hb']
@@ -74,8 +102,8 @@ theorem fjordInput_init (land : Mat) (hl : Land01 land) (d : Int) : Init (fjordI
 /-- land cells are obstacles of the distance computation -/
 theorem land_is_obstacle (land : Mat) (hl : Land01 land) (d : Int) (i j : Int) (hb : land.inBox i j = true)
     (h : land.val i j = 1) : (fjordInput land d).val i j = -2 := by
-  obtain ⟨_, hland⟩ := binaryDilation_spec land hl (d - 1) i j hb
-  show -(binaryDilation land (d - 1)).get 0 i j - land.get 0 i j = -2
+  obtain ⟨_, hland⟩ := notOcean_spec land hl d i j hb
+  show -(notOcean land d).get 0 i j - land.get 0 i j = -2
   have hg : land.get 0 i j = land.val i j := by
     unfold Mat.get; unfold Mat.inBox at hb; simp only [decide_eq_true_eq] at hb; rw [if_pos hb]
   rw [hg, hland h, h]; rfl
@@ -101,8 +129,8 @@ theorem fjord_index_is_shortest_path (land : Mat) (hl : Land01 land) (d : Int) (
     exact spec.1 (land_is_obstacle land hl d i j hb h1)
   · intro h0
     have hne : m.val i j ≠ -2 := by
-      obtain ⟨h01, _⟩ := binaryDilation_spec land hl (d - 1) i j hb
-      show -(binaryDilation land (d - 1)).get 0 i j - land.get 0 i j ≠ -2
+      obtain ⟨h01, _⟩ := notOcean_spec land hl d i j hb
+      show -(notOcean land d).get 0 i j - land.get 0 i j ≠ -2
       have hg : land.get 0 i j = land.val i j := by
         unfold Mat.get; unfold Mat.inBox at hb; simp only [decide_eq_true_eq] at hb; rw [if_pos hb]
       rw [hg, h0]
